@@ -60,6 +60,13 @@ def atom(v, cls: str, q: str | None):
             x = x[2][0]
         f = ('atom', ('in', operand(x, cls, q), operand(v[3], cls, q)))
         return f if v[1] == 'in' else ('not', f)
+    if k == 'ifexp' and len(v) == 4:
+        c = atom(v[1], cls, q)
+        return ('or', ('and', c, atom(v[2], cls, q)), ('and', ('not', c), atom(v[3], cls, q)))
+    if k == 'call' and v[1][0] == 'attr' and v[1][1][0] == 'ifexp' and len(v[1][1]) == 4:
+        # (a if c else b).m(x)  ==  a.m(x) if c else b.m(x)
+        ie = v[1][1]
+        return atom(('ifexp', ie[1], ('call', ('attr', ie[2], v[1][2]), v[2], v[3]), ('call', ('attr', ie[3], v[1][2]), v[2], v[3])), cls, q)
     if k == 'call' and v[1][0] == 'attr' and v[1][2] in JNAME and len(v[2]) == 1:
         recv = v[1][1]
         var = operand(v[2][0], cls, q)
@@ -216,6 +223,10 @@ class PySubstCanon:
             return ('empty',), not pol
         if c[0] == 'call' and c[1] == ('attr', SELF, 'can_be_replaced_by'):
             return None
+        # capture guard: the plug must be fresh for the binder's own variable
+        if self.p_plug is not None and c[0] == 'call' and c[1][0] == 'attr' and c[1][1] == self.p_plug \
+                and c[1][2] in ('evar_is_free', 'svar_is_free') and len(c[2]) == 1 and self.fld(c[2][0]) == 'v':
+            return ('fresh', 'e' if c[1][2] == 'evar_is_free' else 's', 'plug', 'v'), pol
         # `<X>.metavars().isdisjoint(delta)`: no metavariable of X is instantiated, hence X.instantiate(delta) == X.  One-directional
         # (a False answer says nothing): the atom ('disjoint', role) = True makes the child unchanged in the comparison, False
         # leaves it free, so on the False branch the code has to be right whether or not the child changes.
@@ -303,9 +314,24 @@ def notation_op_verdict(py: PyRepo, op: str):
     for p in rets:
         if maps_op_over_inst(p.end[1]):
             guards = [c for c, b in p.conds if b is True]
-            only_freshness = all(
-                (c[0] == 'call' and c[1][0] == 'attr' and c[1][2] in ('evar_is_free',) and c[1][1] == ('attr', SELF, 'pattern'))
-                or (c[0] == 'cmp' and 'metavars' in repr(c)) for c in guards)
+            # the guard speaks only the vocabulary of the judgements (freshness, metavariable sets, instantiation): every call in it
+            # is one of those - whatever the combination, it cannot tell "does not occur" from "occurs bound"
+            VOCAB = {'evar_is_free', 'svar_is_free', 'metavars', 'instantiate', 'keys', 'values', 'items', 'issubset', 'issuperset',
+                     'isdisjoint', 'simplify'}
+            CTORS = {'MetaVar', 'EVar', 'SVar', 'frozendict', 'set', 'frozenset', 'len', 'all', 'any', 'dict', 'tuple', 'list'}
+
+            def in_vocab(v) -> bool:
+                if not isinstance(v, tuple) or not v:
+                    return True
+                if v[0] == 'call':
+                    f = v[1]
+                    if f[0] == 'attr' and f[2] not in VOCAB:
+                        return False
+                    if f[0] == 'name' and f[1] not in CTORS:
+                        return False
+                return all(in_vocab(x) for x in v if isinstance(x, tuple))
+            only_freshness = bool(guards) and all(in_vocab(c) for c in guards) and any('evar_is_free' in repr(c) or 'svar_is_free' in repr(c)
+                                                                                      or 'metavars' in repr(c) for c in guards)
             if only_freshness:
                 return 'violation', (f'Instantiate.{op} keeps the notation and applies the operation to its arguments whenever the variable is '
                                      f'"not free" in the body ({[show(c) for c in guards]}); that is also true when the body BINDS the variable '
